@@ -411,6 +411,7 @@ static void register_properties()
   auto prog = pbt::vec(pbt::range<int>(0, 59), 200);
   auto progs = gen::mapcat(pbt::range<int>(1, 8), [prog](int n) { return gen::container<std::vector<std::vector<int>>>((size_t)n, prog); });
   pbt::property<StampCase>("timestamps", 400, gen::build<StampCase>(gen::set(&StampCase::programs, progs), gen::set(&StampCase::phase, pbt::range<int>(0, 4095))), stamp_case);
+  pbt::registry().back()->noShrink = true;  // a shrunk thread program has less contention: keep the case as it failed
 }
 #ifndef C19_BIN
 #define C19_BIN "C19_observer"
